@@ -118,6 +118,9 @@ def load_definitions(repo):
                 val = NP
             elif mod == "copy":
                 val = Namespace("copy", deepcopy=_copy.deepcopy)
+            elif mod in ("collections", "itertools", "operator"):
+                from ..lib_C11 import STDLIB
+                val = STDLIB[mod]
             elif mod == "re":
                 import re
                 val = Namespace("re", compile=re.compile, match=re.match,
@@ -511,11 +514,33 @@ def _module_level(tree, globs, interp):
                 pass
 
 
+def _cd_method(repo, name):
+    """method of ConfigurationDict, own or inherited from a base class of
+    the same file"""
+    from ..lib_C11 import class_methods
+    m = class_methods(repo.cls(CONF, "ConfigurationDict")).get(name)
+    if m is None:
+        raise AnalysisError(f"anchor vanished: {CONF}::ConfigurationDict."
+                            f"{name}")
+    return m
+
+
+def _env(repo, interp, rel, **overrides):
+    """module environment of `rel` (names of the file and of repository
+    modules it imports resolve by definition) with the rule's stand-ins"""
+    from ..lib_C11 import ModuleEnvs
+    return ModuleEnvs(repo, interp).fresh(rel, **overrides)
+
+
 def build_config_model(repo, mc, ml):
     """-> setitem(section, key, value) -> Recorder"""
     tree = repo.tree(CONF)
-    f_set = repo.func(CONF, "ConfigurationDict.__setitem__")
-    f_k = repo.func(CONF, "ConfigurationDict._k")
+    from ..lib_C11 import class_methods
+    own = class_methods(repo.cls(CONF, "ConfigurationDict"))
+    f_set = own.get("__setitem__")
+    f_k = own.get("_k")
+    if f_set is None:
+        raise AnalysisError("ConfigurationDict.__setitem__ vanished")
     f_ver = repo.func(CONF, "verify_section_key")
     interp = Interp()
     rec_box = [None]
@@ -532,16 +557,18 @@ def build_config_model(repo, mc, ml):
         and n in KNOWN_FEATS,
         config_keys=mc.config_keys, CFG_METADATA=mc.CFG_METADATA,
         CFG_ANALYSIS=mc.CFG_ANALYSIS)
-    globs = {"dfn": dfn,
-             "warnings": Namespace("warnings", warn=warn),
-             "sys": Namespace("sys", version_info=(3, 12, 0))}
+    globs = _env(repo, interp, CONF, dfn=dfn,
+                 warnings=Namespace("warnings", warn=warn),
+                 sys=Namespace("sys", version_info=(3, 12, 0)))
     for st in tree.body:
         if isinstance(st, ast.ClassDef) and st.name.endswith("Warning"):
             globs[st.name] = Namespace(st.name)
     cls = Namespace("ConfigurationDict")
-    kfunc = Func(f_k, globs, interp)
+    kfunc = Func(f_k, globs, interp) if f_k is not None else None
 
     def bound_k(key):
+        if kfunc is None:
+            raise AnalysisError("ConfigurationDict._k vanished")
         return kfunc(cls, key)
     bound_k.model_callable = True
     cls._k = bound_k
@@ -567,9 +594,6 @@ def build_config_model(repo, mc, ml):
     globs["UserDict"] = Namespace("UserDict", __setitem__=lambda s, k, v:
                                   rec_box[0].stored.append((k, v)))
     fset = Func(f_set, globs, interp)
-    own = {f.name: f for f in repo.cls(CONF, "ConfigurationDict").body
-           if isinstance(f, ast.FunctionDef)}
-
     class SelfObj(Namespace):
         """instance stand-in: other methods of the class are interpreted
         when __setitem__ calls them (helper extraction)"""
@@ -650,12 +674,10 @@ def build_config_model(repo, mc, ml):
         path = Namespace("path")
         path.resolve = lambda *a, **k: path
         path.open = lambda *a, **k: fobj
-        g2 = dict(globs)
-        g2["ConfigurationDict"] = new_dict
-        g2["pathlib"] = Namespace("pathlib", Path=lambda p: path)
-        g2["open"] = lambda *a, **k: fobj
-        if f_guess is not None:
-            g2["keyval_str2typ"] = Func(f_guess, g2, interp)
+        g2 = globs.copy_with(
+            ConfigurationDict=new_dict,
+            pathlib=Namespace("pathlib", Path=lambda p: path),
+            open=lambda *a, **k: fobj)
         interp.steps = 0
         return Func(f_load, g2, interp)("model.cfg")
     setitem.load = load
@@ -1043,7 +1065,7 @@ def r112(ctx, repo, mp, mc, ml, setitem):
 # R11.3 + positive funnel scenarios (R11.1)
 
 def r113(ctx, repo, mp, mc, setitem, verify, bound_k):
-    f_set = repo.func(CONF, "ConfigurationDict.__setitem__")
+    f_set = _cd_method(repo, "__setitem__")
     f_ver = repo.func(CONF, "verify_section_key")
     marker = object()
     rej = [
@@ -1151,7 +1173,7 @@ def r113(ctx, repo, mp, mc, setitem, verify, bound_k):
         ok = False
     ctx.ob("R11.1", ok, "_k lower-cases strings and passes other keys"
            if ok else "_k no longer lower-cases strings / breaks on "
-           "non-string keys", node=repo.func(CONF, "ConfigurationDict._k"),
+           "non-string keys", node=_cd_method(repo, "_k"),
            key=f"{CONF}::ConfigurationDict._k::lower-case")
 
 
@@ -1209,12 +1231,25 @@ def _raw_stores(func):
 
 
 def r111(ctx, repo):
+    from ..lib_C11 import class_methods
     cls = repo.cls(CONF, "ConfigurationDict")
-    bases = [dotted(b) for b in cls.bases]
-    if bases not in (["UserDict"], ["collections.UserDict"]):
-        raise AnalysisError(f"ConfigurationDict bases changed: {bases}")
-    methods = {f.name: f for f in cls.body
-               if isinstance(f, ast.FunctionDef)}
+    # the class (possibly through private base classes of the same file)
+    # is a collections.UserDict
+    roots, todo, seen_b = [], [cls], set()
+    while todo:
+        c = todo.pop()
+        for b in c.bases:
+            nm = dotted(b)
+            sub = repo.cls(CONF, nm, missing_ok=True) if nm and "." not in \
+                nm else None
+            if sub is not None and nm not in seen_b:
+                seen_b.add(nm)
+                todo.append(sub)
+            else:
+                roots.append(nm)
+    if roots not in (["UserDict"], ["collections.UserDict"]):
+        raise AnalysisError(f"ConfigurationDict bases changed: {roots}")
+    methods = class_methods(cls)
     if "__setitem__" not in methods:
         raise AnalysisError("ConfigurationDict.__setitem__ vanished")
     # (a) raw stores only inside __setitem__
@@ -1240,9 +1275,9 @@ def r111(ctx, repo):
     if upd is not None:
         from ..lib_C11 import ClassModel
         interp = Interp()
-        g = {}
+        g = _env(repo, interp, CONF)
         cm = ClassModel(cls, g, interp, strict_instances=True)
-        g["ConfigurationDict"] = cm
+        g.set("ConfigurationDict", cm)
 
         def run_update(args, kwargs):
             stored, raw = [], []
@@ -1273,7 +1308,7 @@ def r111(ctx, repo):
 
                 def __setitem__(self, k, v):
                     raw.append((k, v))
-            g["super"] = lambda *a: Super()
+            g.set("super", lambda *a: Super())
             interp.steps = 0
             try:
                 Func(upd, g, interp)(me, *args, **kwargs)
@@ -1374,34 +1409,76 @@ def r111(ctx, repo):
                "items into self.data without lower-casing, validation or "
                "conversion", node=f or cls,
                key=f"{CONF}::ConfigurationDict::inherited {m}")
-    # (g) key normalisation in every key-taking method
+    # (g) key normalisation in every key-taking method that reaches the
+    # underlying mapping: interpreted with a mixed-case key, the key handed
+    # to the base class must be the lower-case one
+    from ..lib_C11 import ClassModel
+    kint = Interp()
     for name, f in methods.items():
         params = [a.arg for a in f.args.args]
-        if len(params) < 2 or params[1] != "key" or name == "_k":
+        if len(params) < 2 or params[1] != "key" or name in (
+                "_k", "__setitem__"):
             continue
         reaches = any(_is_super_call(c) for c in walk(f)
                       if isinstance(c, ast.Call)) or any(
             is_self_attr(n, "data") for n in walk(f))
         if not reaches:
             continue    # helper that never touches the underlying mapping
-        bad = []
-        renorm = False
-        for s in f.body:
-            if isinstance(s, ast.Assign) and any(
-                    isinstance(t, ast.Name) and t.id == "key"
-                    for t in s.targets) and "_k" in txt(s.value):
-                renorm = True
-                break
-            for n in walk(s):
-                if isinstance(n, ast.Name) and n.id == "key" and not renorm:
-                    p = n.parent
-                    if not (isinstance(p, ast.Call) and isinstance(
-                            p.func, ast.Attribute) and p.func.attr == "_k"):
-                        bad.append(n)
-        ctx.ob("R11.1", not bad,
-               f"{name} normalises its key through _k" if not bad else
-               f"{name} uses the key without _k(): case-sensitive access",
-               node=f, key=f"{CONF}::ConfigurationDict.{name}::key via _k")
+        seen_keys = []
+
+        class Super:
+            model_object = True
+
+            def model_getattr(self, attr):
+                def rec(key=None, *a, **k):
+                    seen_keys.append(key)
+                    return None
+                rec.model_callable = True
+                return rec
+
+        class Data(dict):
+            def __getitem__(self, k):
+                seen_keys.append(k)
+
+            def __contains__(self, k):
+                seen_keys.append(k)
+                return False
+
+            def get(self, k, *a):
+                seen_keys.append(k)
+
+            def pop(self, k, *a):
+                seen_keys.append(k)
+
+            def setdefault(self, k, *a):
+                seen_keys.append(k)
+        g = _env(repo, kint, CONF)
+        g.set("super", lambda *a: Super())
+        cm_ = ClassModel(cls, g, kint, strict_instances=True)
+        g.set("ConfigurationDict", cm_)
+        me = cm_.instance(data=Data(), section="setup")
+        kint.steps = 0
+        try:
+            Func(f, g, kint)(me, "MiXed Key")
+            err = None
+        except ModelRaise as e:
+            err = e.name
+        ok = err is None and bool(seen_keys) and all(
+            k == "mixed key" for k in seen_keys)
+        ctx.ob("R11.1", ok,
+               f"{name} normalises its key through _k" if ok else
+               f"{name}('MiXed Key') " + (f"raises {err}" if err else
+                                          f"looks up {seen_keys}")
+               + ": case-sensitive access", node=f,
+               key=f"{CONF}::ConfigurationDict.{name}::key via _k")
+    f = methods["__setitem__"]
+    uses_norm = any(isinstance(n, ast.Assign) and any(
+        isinstance(t, ast.Name) and t.id == "key" for t in n.targets)
+        for n in walk(f))
+    ctx.ob("R11.1", True, "__setitem__ key handling is decided by the "
+           "modelled store (R11.1 stores ..., R11.2 upper-case spelling)",
+           node=f, key=f"{CONF}::ConfigurationDict.__setitem__::key via _k",
+           nontrivial=False)
 
     # Configuration
     conf = repo.cls(CONF, "Configuration")
@@ -1578,9 +1655,8 @@ def _writer_model(repo, mc, ml):
                     CFG_ANALYSIS=mc.CFG_ANALYSIS, config_keys=mc.config_keys,
                     config_key_exists=ml.config_key_exists,
                     get_config_value_func=get_func)
-    globs = {"dfn": dfn, "copy": Namespace("copy", deepcopy=_copy.deepcopy)}
-    from ..lib_C11 import module_level
-    module_level(repo.tree(WR), globs, interp, assigns=False)
+    globs = _env(repo, interp, WR, dfn=dfn,
+                 copy=Namespace("copy", deepcopy=_copy.deepcopy))
     from ..lib_C11 import ClassModel
     writer = ClassModel(repo.cls(WR, "RTDCWriter"), globs, interp,
                         strict_instances=True)
@@ -1656,8 +1732,8 @@ def _reader_model(repo):
         def __getitem__(self, sec):
             return self.secs.setdefault(sec, Section(sec))
     from ..lib_C11 import CONTEXTLIB
-    globs = {"h5py": Namespace("h5py", File=File),
-             "Configuration": Config, "contextlib": CONTEXTLIB}
+    globs = _env(repo, interp, H5, h5py=Namespace("h5py", File=File),
+                 Configuration=Config, contextlib=CONTEXTLIB)
 
     def parse(attrs, as_path):
         box.update(attrs=attrs, assigned=[], raw=[], cfg_args=None,
@@ -1970,12 +2046,14 @@ def r114(ctx, repo, setitem, mc, ml):
                        filter=Namespace("filter", all=[True, False]))
         loc = {"ds": ds, "self": Namespace("self", rtdc_ds=ds),
                "filtered": filtered, "features": None}
-        g = {"dfn": Namespace("dfn", CFG_METADATA=mc.CFG_METADATA,
-                              CFG_ANALYSIS=mc.CFG_ANALYSIS,
-                              config_keys=mc.config_keys),
-             "uuid": Namespace("uuid", uuid4=lambda: "0123-4567"),
-             "ConfigurationDict": ModelCD, "copy": Namespace(
-                 "copy", deepcopy=_copy.deepcopy, copy=_copy.copy)}
+        g = _env(repo, interp, EXP,
+                 dfn=Namespace("dfn", CFG_METADATA=mc.CFG_METADATA,
+                               CFG_ANALYSIS=mc.CFG_ANALYSIS,
+                               config_keys=mc.config_keys),
+                 uuid=Namespace("uuid", uuid4=lambda: "0123-4567"),
+                 ConfigurationDict=ModelCD,
+                 copy=Namespace("copy", deepcopy=_copy.deepcopy,
+                                copy=_copy.copy))
         how = "filtered" if filtered else "unfiltered"
         problems = []
         try:
@@ -2051,9 +2129,8 @@ def r114_rectify(ctx, repo):
                             f"('updated' / 'if not present') not "
                             f"recognised: {announced}")
     interp = Interp()
-    g = {"h5py": Namespace("h5py", Dataset=H5Dataset, Group=H5Group)}
-    from ..lib_C11 import module_level
-    module_level(repo.tree(WR), g, interp, assigns=False)
+    g = _env(repo, interp, WR,
+             h5py=Namespace("h5py", Dataset=H5Dataset, Group=H5Group))
     writer = ClassModel(repo.cls(WR, "RTDCWriter"), g, interp,
                         strict_instances=True)
 
@@ -2146,9 +2223,10 @@ def r114_copies(ctx, repo):
         "setup": {"channel width": 20.0},
         "user": {"pair": (1, 2), "nested": {"t": (3.5,)}},
     })
-    g = {"Configuration": configuration, "copy": Namespace(
-        "copy", deepcopy=_copy.deepcopy, copy=_copy.copy),
-        "json": Namespace("json", loads=json.loads, dumps=json.dumps)}
+    g = _env(repo, interp, HIER, Configuration=configuration,
+             copy=Namespace("copy", deepcopy=_copy.deepcopy,
+                            copy=_copy.copy),
+             json=Namespace("json", loads=json.loads, dumps=json.dumps))
     me = Namespace("self", hparent=Namespace(
         "hparent", config=parent, identifier="parent-id"))
     problems = []
@@ -3082,4 +3160,52 @@ TWINS = list(TWINS) + [
     ("duple guard written as two tests", MP,
      ("    if np.array(value).ndim != 1:",
       "    if np.array(value).ndim < 1 or np.array(value).ndim > 1:")),
+]
+
+# round-6 refactoring (reduced): attribute loop of store_metadata as a
+# module-level generator (the other round-6 diffs are replayed from
+# campaign/refactorings_round6 by the thorough tier)
+TWINS = list(TWINS) + [
+    ("writer: attribute names and values from a module-level generator", WR,
+     [("        for sec in meta:\n            for ck in meta[sec]:\n"
+       "                idk = f\"{sec}:{ck}\"\n"
+       "                value = meta[sec][ck]\n",
+       "        for idk, value in _iter_metadata_attributes(meta):\n"
+       "            self.h5file.attrs[idk] = value\n"
+       "        return\n"
+       "        for sec in meta:\n            for ck in meta[sec]:\n"
+       "                idk = f\"{sec}:{ck}\"\n"
+       "                value = meta[sec][ck]\n"),
+      ("class RTDCWriter:\n",
+       "def _iter_metadata_attributes(meta):\n"
+       "    for sec in meta:\n"
+       "        for ck in meta[sec]:\n"
+       "            value = meta[sec][ck]\n"
+       "            if isinstance(value, bytes):\n"
+       "                value = value.decode(\"utf-8\")\n"
+       "            if sec != \"user\":\n"
+       "                value = dfn.get_config_value_func(sec, ck)(value)\n"
+       "            yield f\"{sec}:{ck}\", value\n\n\n"
+       "class RTDCWriter:\n")]),
+]
+MUTANTS = list(MUTANTS) + [
+    ("writer generator forgets the converter", WR,
+     [("        for sec in meta:\n            for ck in meta[sec]:\n"
+       "                idk = f\"{sec}:{ck}\"\n"
+       "                value = meta[sec][ck]\n",
+       "        for idk, value in _iter_metadata_attributes(meta):\n"
+       "            self.h5file.attrs[idk] = value\n"
+       "        return\n"
+       "        for sec in meta:\n            for ck in meta[sec]:\n"
+       "                idk = f\"{sec}:{ck}\"\n"
+       "                value = meta[sec][ck]\n"),
+      ("class RTDCWriter:\n",
+       "def _iter_metadata_attributes(meta):\n"
+       "    for sec in meta:\n"
+       "        for ck in meta[sec]:\n"
+       "            value = meta[sec][ck]\n"
+       "            if isinstance(value, bytes):\n"
+       "                value = value.decode(\"utf-8\")\n"
+       "            yield f\"{sec}:{ck}\", value\n\n\n"
+       "class RTDCWriter:\n")], "R11.4"),
 ]
